@@ -417,6 +417,14 @@ pub fn oracle_cli_quit(scn: &E3Scn, d: &D3, out: &RunOut, stats: &mut Stats) -> 
             _ => {}
         }
     }
+    // nothing outlives the main task
+    if let Some((mt, _, _, _)) = &d.main_end {
+        for (k, c) in d.children.iter().enumerate() {
+            if c.spawn_seq > 0 && c.spawn_t <= *mt && c.exit.map(|e| e.0 > *mt).unwrap_or(true) {
+                vs.push(Violation::new("process-outlives-main", "cli", format!("child {k} was still alive when main ended at t={mt} (exit: {:?})", c.exit)));
+            }
+        }
+    }
     // nothing survives
     let mut dead = std::collections::BTreeSet::new();
     let mut all = Vec::new();
